@@ -1008,3 +1008,248 @@ def tbl13_comparators(ctx):
         except _Undecided as e:
             ctx.note('TBL-13: %s not decided (%s)' % (impl, e))
     ctx.require(decided >= 17, 'TBL-13: only %d comparator impls could be decided' % decided)
+
+
+# ---------------------------------------------------------------------------- TBL-14
+_AGG_FAMILY = {'SumI64': 'sum', 'SumF64': 'sum', 'Count': 'sum', 'MaxI64': 'max', 'MaxF64': 'max',
+               'MinI64': 'min', 'MinF64': 'min'}
+
+
+def _combining_ops(node):
+    """Operators that combine the two partial aggregates in an arm body: '+', checked_add, max,
+    min (std::cmp::max / .max(..))."""
+    ops = set()
+    for n in walk(node):
+        if not isinstance(n, dict):
+            continue
+        if n.get('k') == 'binary' and n.get('op') in ('+', '-', '*'):
+            ops.add({'+': 'sum', '-': 'sub', '*': 'mul'}[n['op']])
+        elif n.get('k') == 'mcall' and n['method'] in ('checked_add', 'wrapping_add', 'saturating_add',
+                                                       'overflowing_add'):
+            ops.add('sum' if n['method'] in ('checked_add', 'overflowing_add') else n['method'])
+        elif n.get('k') == 'mcall' and n['method'] in ('max', 'min'):
+            ops.add(n['method'])
+        elif n.get('k') == 'call':
+            f = last_seg((n.get('func') or {}).get('path', '') or '')
+            if f in ('max', 'min'):
+                ops.add(f)
+    return ops
+
+
+def tbl14_aggregate_merge_table(ctx):
+    ctx.rule('TBL-14', 'partial aggregates of two partitions are merged with the operation of their own '
+                       'aggregator: SUM and COUNT add, MAX takes the maximum, MIN the minimum, a NULL '
+                       'partial result yields the other side, unknown aggregators are an error; the '
+                       'merge plan passes each aggregate column its own aggregator', floor=8)
+    ast = ctx.ast
+    f = 'src/engine/operators/merge_aggregate.rs'
+    impls = [(q, n) for (p, q, n) in ast.fns if p.endswith(f) and q.endswith('::combine') and 'Combinable' in q
+             and n.get('body')]
+    ctx.require(len(impls) >= 2, 'TBL-14: fewer than 2 Combinable::combine impls (%d)' % len(impls))
+    for q, n in sorted(impls, key=lambda x: x[0]):
+        tname = 'i64' if 'fori64' in q.replace(' ', '') or '<i64' in q else ('f64' if 'f64' in q else q)
+        arms, wild = arms_over_enum(n, 'Aggregator')
+        ctx.require(arms, 'TBL-14: no match over Aggregator in %s' % q)
+        for v, arm in sorted(arms, key=lambda x: x[0]):
+            fam = _AGG_FAMILY.get(v)
+            if fam is None:
+                ctx.violation('TBL-14', '%s|%s|known-aggregator' % (tname, v),
+                              'aggregator %s is not in the checker\'s table' % v, '%s:%d' % (f, arm['l']))
+                continue
+            if astlib.arm_rejects(arm['body']):
+                continue
+            ops = _combining_ops(arm['body'])
+            ctx.check('TBL-14', '%s|%s|merge-op' % (tname, v), ops == {fam},
+                      'partial %s results are merged with %s (expected %s)' % (v, sorted(ops) or 'nothing', fam),
+                      '%s:%d' % (f, arm['l']))
+            # NULL coalescing: the arm (or the helper it calls) compares with the NULL sentinel
+            txt = json_text(arm['body'])
+            nullaware = 'I64_NULL' in txt or 'F64_NULL' in txt or 'null_coalesce' in txt
+            if v == 'Count':
+                continue    # a count is never NULL: groups missing on one side are not merged at all
+            ctx.check('TBL-14', '%s|%s|null-partial-yields-other-side' % (tname, v), nullaware,
+                      'a NULL partial result (group absent on one side / all inputs NULL) does not enter '
+                      'the arithmetic', '%s:%d' % (f, arm['l']))
+        for arm in wild:
+            ctx.check('TBL-14', '%s|other-aggregators-are-errors' % tname,
+                      any((x.get('k') == 'macro' and x.get('path') in ('fatal', 'bail', 'panic', 'unreachable'))
+                          or (x.get('k') == 'call' and last_seg((x.get('func') or {}).get('path', '') or '') == 'Err')
+                          for x in walk(arm['body']) if isinstance(x, dict)),
+                      'the wildcard arm reports an error', '%s:%d' % (f, arm['l']))
+    # the helper null_coalesce returns b when a is NULL, a when b is NULL, else the combined value
+    n_helpers = 0
+    for (p, q, n) in ast.fns:
+        if p.endswith(f) and q.endswith('null_coalesce') and n.get('body'):
+            n_helpers += 1
+            params = [x['name'] for x in n.get('params', [])]
+            ifs = [x for x in walk(n['body']) if isinstance(x, dict) and x.get('k') == 'if']
+            ok = False
+            if len(params) == 3 and ifs:
+                top = ifs[0]
+
+                def ret_ident(b):
+                    ids = [y.get('path') for y in walk(b) if isinstance(y, dict) and y.get('k') == 'path'
+                           and y.get('path') in params]
+                    return ids[0] if len(ids) == 1 else None
+                c1 = idents_in(top['cond'])
+                r1 = ret_ident(top['then'])
+                els = top.get('else') or {}
+                inner = [y for y in walk(els) if isinstance(y, dict) and y.get('k') == 'if']
+                if inner:
+                    c2 = idents_in(inner[0]['cond'])
+                    r2 = ret_ident(inner[0]['then'])
+                    r3 = ret_ident(inner[0].get('else') or {})
+                    ok = (params[0] in c1 and r1 == params[1] and params[1] in c2 and r2 == params[0]
+                          and r3 == params[2])
+            ctx.check('TBL-14', '%s|null_coalesce|shape' % ('i64' if 'i64' in q else 'f64' if 'f64' in q else q),
+                      ok, 'null_coalesce(a, b, combined): a NULL -> b, b NULL -> a, else combined',
+                      '%s:%d' % (f, n['l']))
+    ctx.require(n_helpers >= 1, 'TBL-14: null_coalesce helper not found')
+    # plumbing: batch_merging::combine hands merge_aggregate the aggregator of the same tuple as the
+    # column index it merges
+    comb = ast.fn('combine', 'engine/execution/batch_merging.rs')
+    ok = False
+    site = comb['l']
+    for lp in [x for x in walk(comb['body']) if isinstance(x, dict) and x.get('k') == 'for']:
+        calls = [m for m in find(lp['body'], 'mcall') if m['method'] == 'merge_aggregate']
+        if not calls:
+            continue
+        site = calls[0]['l']
+        binders = [y.get('name') for y in walk(lp['pat']) if isinstance(y, dict) and y.get('k') == 'p_ident']
+        a = calls[0]['args']
+        if len(a) == 4 and a[3].get('k') == 'path' and a[3]['path'] in binders:
+            # the aggregator binder and the left index binder come from the same tuple pattern
+            tuples = [y for y in walk(lp['pat']) if isinstance(y, dict) and y.get('k') == 'p_tuple']
+            same = any(a[3]['path'] in [e.get('name') for e in walk(t) if isinstance(e, dict)]
+                       and any(e.get('name') not in (None, a[3]['path']) for e in walk(t) if isinstance(e, dict) and e.get('k') == 'p_ident')
+                       for t in tuples if len(t['elems']) == 2 and all(e.get('k') in ('p_ident', 'p_wild') for e in t['elems']))
+            zipped = any(m['method'] == 'zip' for m in find(lp['iter'], 'mcall')) and \
+                'aggregations' in json_text(lp['iter'])
+            ok = same and zipped
+    ctx.check('TBL-14', 'batch_merging::combine|aggregator-of-its-own-column', ok,
+              'merge_aggregate receives the aggregator bound in the same (index, aggregator) tuple of '
+              'batch.aggregations as the column it merges', 'src/engine/execution/batch_merging.rs:%d' % site)
+
+
+def json_text(node):
+    import json as _json
+    return _json.dumps(node)
+
+
+# ---------------------------------------------------------------------------- TBL-15
+_AGG_KIND = {'SumI64': 'sum', 'SumF64': 'sum', 'Count': 'count', 'MaxI64': 'max', 'MaxF64': 'max',
+             'MinI64': 'min', 'MinF64': 'min'}
+_SQL_AGG = {'COUNT': ['Count'], 'SUM': ['SumI64'], 'MAX': ['MaxI64'], 'MIN': ['MinI64'],
+            'AVG': ['Count', 'SumI64']}
+
+
+def tbl15_aggregator_plumbing(ctx):
+    ctx.rule('TBL-15', 'an aggregate keeps its kind from the SQL text to the operator: the parser maps '
+                       'COUNT/SUM/MIN/MAX (AVG = SUM / COUNT) to the aggregator of that name, and the '
+                       'planner hands every arm an aggregator of the same family (the I64 -> F64 '
+                       're-mapping keeps Max as Max and Min as Min)', floor=9)
+    ast = ctx.ast
+    # parser: string arm -> Aggregator paths in the arm
+    pf = 'src/syntax/parser.rs'
+    seen = {}
+    for (p, q, n) in ast.fns:
+        if not p.endswith(pf) or not n.get('body'):
+            continue
+        for m in find(n, 'match'):
+            for arm in m['arms']:
+                lits = [str(x.get('value')).strip('"') for x in walk(arm['pat'])
+                        if isinstance(x, dict) and x.get('k') == 'p_lit' and x.get('value') is not None]
+                for lit in lits:
+                    if lit in _SQL_AGG:
+                        aggs = sorted({last_seg(x['path']) for x in walk(arm['body']) if isinstance(x, dict)
+                                       and x.get('k') == 'path' and x.get('path', '').startswith('Aggregator::')})
+                        seen[lit] = (aggs, arm['l'])
+    for name, want in sorted(_SQL_AGG.items()):
+        got, line = seen.get(name, (None, 0))
+        ctx.check('TBL-15', 'parser|%s' % name, got == sorted(want),
+                  'SQL %s(..) builds %s (expected %s)' % (name, got, sorted(want)), '%s:%d' % (pf, line))
+    if 'AVG' in seen:
+        # AVG divides the sum by the count (not the reverse)
+        ok = False
+        for (p, q, n) in ast.fns:
+            if not p.endswith(pf) or not n.get('body'):
+                continue
+            for c in find(n, 'call'):
+                if (c.get('func') or {}).get('path', '').endswith('Expr::Func2') and len(c.get('args', [])) == 3 \
+                        and (c['args'][0].get('path') or '').endswith('Divide'):
+                    t1, t2 = json_text(c['args'][1]), json_text(c['args'][2])
+                    if 'Aggregator::SumI64' in t1 and 'Aggregator::Count' in t2 and \
+                            'Aggregator::Count' not in t1 and 'Aggregator::SumI64' not in t2:
+                        ok = True
+        ctx.check('TBL-15', 'parser|AVG|sum-over-count', ok, 'AVG(x) is SUM(x) / COUNT(x)', pf)
+    # planner
+    fn = ast.fn('prepare_aggregation', 'engine/planning/query_plan.rs')
+    arms, wild = arms_over_enum(fn, 'Aggregator')
+    top = [m for m in find(fn, 'match')][0]
+    n = 0
+    for arm in top['arms']:
+        vs = [last_seg(v) for v in top_pat_variants(arm['pat']) if v != '_']
+        if not vs or astlib.arm_rejects(arm['body']):
+            continue
+        fam = {_AGG_KIND.get(v) for v in vs}
+        # aggregator paths handed on in this arm (outside nested re-mapping patterns)
+        used = set()
+        for x in walk(arm['body']):
+            if isinstance(x, dict) and x.get('k') == 'path' and x.get('path', '').startswith('Aggregator::'):
+                used.add(last_seg(x['path']))
+        # nested re-mapping match: every arm keeps the family
+        remap_ok = True
+        for m2 in find(arm['body'], 'match'):
+            for a2 in m2['arms']:
+                pv = [last_seg(v) for v in top_pat_variants(a2['pat']) if v != '_']
+                bv = [last_seg(x['path']) for x in walk(a2['body']) if isinstance(x, dict) and x.get('k') == 'path'
+                      and x.get('path', '').startswith('Aggregator::')]
+                for a_, b_ in zip(pv, bv):
+                    if _AGG_KIND.get(a_) != _AGG_KIND.get(b_):
+                        remap_ok = False
+        pattern_fams = {_AGG_KIND.get(u) for u in used} - {None}
+        okf = remap_ok and (pattern_fams <= fam if len(fam) > 1 else pattern_fams <= fam)
+        n += 1
+        ctx.check('TBL-15', 'prepare_aggregation|%s' % '+'.join(sorted(set(vs))) + ('|#%d' % n), okf,
+                  'arm for %s hands on aggregators %s (families %s must stay within %s)'
+                  % (sorted(set(vs)), sorted(used), sorted(pattern_fams), sorted(x for x in fam if x)),
+                  'src/engine/planning/query_plan.rs:%d' % arm['l'])
+    ctx.require(n >= 4, 'TBL-15: fewer than 4 non-rejecting arms in prepare_aggregation')
+
+
+def tbl16_aggregator_operations(ctx):
+    ctx.rule('TBL-16', 'each aggregator marker type accumulates and combines with its own operation and '
+                       'starts from the neutral element of that operation', floor=7)
+    ast = ctx.ast
+    f = 'src/engine/operators/aggregate.rs'
+    impls = {}
+    for (p, q, n) in ast.fns:
+        if p.endswith(f) and ' as Aggregator<' in q.replace('as', ' as ').replace('  ', ' ') or \
+                (p.endswith(f) and 'Aggregator<' in q and q.startswith('<')):
+            impl, name = q.rsplit('::', 1)
+            m = re.match(r'^<(\w+)as(?:Checked)?Aggregator<', impl.replace(' ', ''))
+            if not m or 'CheckedAggregator' in impl:
+                continue
+            impls.setdefault(m.group(1), {})[name] = n
+    ctx.require(len(impls) >= 7, 'TBL-16: fewer than 7 Aggregator impls found (%s)' % sorted(impls))
+    for marker, fns in sorted(impls.items()):
+        kind = _AGG_KIND.get(marker)
+        if kind is None:
+            ctx.note('TBL-16: marker %s not in the table' % marker)
+            continue
+        acc = _combining_ops(fns['accumulate']['body']) if 'accumulate' in fns else set()
+        comb = _combining_ops(fns['combine']['body']) if 'combine' in fns else set()
+        unit_txt = json_text(fns['unit']['body']) if 'unit' in fns else ''
+        want = {'sum': 'sum', 'count': 'sum', 'max': 'max', 'min': 'min'}[kind]
+        unit_ok = {'sum': ('"int": "0"' in unit_txt or '0.0' in unit_txt) and 'MIN' not in unit_txt and 'MAX' not in unit_txt,
+                   'count': '"int": "0"' in unit_txt,
+                   'max': 'MIN' in unit_txt or 'NEG_INFINITY' in unit_txt,
+                   'min': 'MAX' in unit_txt or 'INFINITY' in unit_txt}[kind]
+        one = True
+        if kind == 'count':
+            one = any(isinstance(x, dict) and x.get('k') == 'lit' and x.get('int') == '1'
+                      for x in walk(fns['accumulate']['body']))
+        ctx.check('TBL-16', '%s|operations' % marker, acc == {want} and comb == {want} and unit_ok and one,
+                  '%s: accumulate uses %s, combine uses %s (expected %s), neutral start %s%s'
+                  % (marker, sorted(acc), sorted(comb), want, 'ok' if unit_ok else 'WRONG',
+                     '' if one else ', COUNT does not add 1'), '%s:%d' % (f, fns['accumulate']['l'] if 'accumulate' in fns else 0))
